@@ -1,5 +1,6 @@
 import ScenicModel.Model.ExprSupported
 import ScenicModel.Model.Support
+import ScenicModel.Model.Delayed
 import ScenicModel.Gen.ExprTables
 import ScenicModel.Gen.SupportFormulas
 import Driver.Util
@@ -8,6 +9,7 @@ Line protocol for the C05 models (expression forest, supports); tables are the o
 
   ev <n> <val>*n <expr>     ->  <supported 0/1> | <python value> | <scenic value> | <forest shape>
   sup <n> <ival>*n <sexpr>  ->  <lo> <hi>     (support interval computed by the model; `-` = None, `exc` = exception)
+  wo <n> spec*n             ->  1/0: `Delayed.wellOrdered` of an evaluation order (spec ::= <k> dep*k <m> set*m)
   tables                    ->  a dump of the generated tables
 
 Token syntax (prefix, space separated):
@@ -124,18 +126,18 @@ def fnName : Fn → String
 partial def shape : Node → String
   | .const _ => "c"
   | .leaf i _ => s!"L{i}"
-  | .opd2 op refl obj arg ty => s!"O:{tyName ty}({dunderName op refl},{shape obj},{shape arg})"
-  | .opd1 op obj ty => s!"O:{tyName ty}({unName op},{shape obj})"
-  | .geti obj idx => s!"O({"__getitem__"},{shape obj},{shape idx})"
+  | n@(.opd2 op refl obj arg) => s!"O:{tyName n.vty}({dunderName op refl},{shape obj},{shape arg})"
+  | n@(.opd1 op obj) => s!"O:{tyName n.vty}({unName op},{shape obj})"
+  | n@(.geti obj idx) => s!"O:{tyName n.vty}({"__getitem__"},{shape obj},{shape idx})"
   | .lend obj => s!"O:N({"__len__"},{shape obj})"
-  | .attrd name obj ty => s!"A:{tyName ty}({name},{shape obj})"
+  | n@(.attrd name obj) => s!"A:{tyName n.vty}({name},{shape obj})"
   | .vop op refl obj arg => s!"VO({dunderName op refl},{shape obj},{shape arg})"
   | .vmeth op refl _ _ _ arg => s!"VM({dunderName op refl},{shape arg})"
   | .vecOf x y z => s!"V({shape x},{shape y},{shape z})"
   | .tupd k xs => (if k then "TDL(" else "TD(") ++ ",".intercalate (xs.map shape) ++ ")"
   | .rawt k xs => (if k then "RTL(" else "RT(") ++ ",".intercalate (xs.map shape) ++ ")"
-  | .fnd f args => s!"F({fnName f}," ++ ",".intercalate (args.map shape) ++ ")"
-  | .star n => s!"*{shape n}"
+  | .fnd f args ss =>
+    s!"F({fnName f}," ++ ",".intercalate ((args.zip (ss ++ args.map fun _ => false)).map fun (a, s) => (if s then "*" else "") ++ shape a) ++ ")"
   | .fail => "FAIL"
 
 def mkEnv (vals : List Val) : Env := fun i => vals.getD i .none
@@ -188,10 +190,20 @@ def handle : List String → String
       pure (match Scenic.Support.support Scenic.Gen.supportFormulas (fun i => ivs.getD i (none, none)) e with
         | some (l, h) => s!"{showOptRat l} {showOptRat h}"
         | none => "exc")).getD "bad-op"
+  | "wo" :: n :: rest => (do
+      -- wo <n> (<ndeps> dep* <nsets> set*)*n : is this evaluation order well ordered (Model/Delayed.lean)?
+      let n ← n.toNat?
+      let pSpec : P (Scenic.Delayed.Spec Nat) := fun ts => do
+        let (k, ts) ← pNat ts; let (ds, ts) ← pMany pNat k ts
+        let (m, ts) ← pNat ts; let (ss, ts) ← pMany pNat m ts
+        pure ({ deps := ds, sets := ss, value := fun _ _ => 0 }, ts)
+      let (specs, ts) ← pMany pSpec n rest
+      if !ts.isEmpty then none
+      pure (if Scenic.Delayed.wellOrdered specs then "1" else "0")).getD "bad-op"
   | ["tables"] =>
     let es := T.simp.map fun e => s!"{dunderName e.op e.refl}:{e.const}"
     let vs := T.vecOps.map fun e => s!"{dunderName e.1 e.2.1}:{if e.2.2 then 1 else 0}"
-    s!"simp={",".intercalate es} vec={",".intercalate vs} guard={if T.guardMissingAttr then 1 else 0} monotone={",".intercalate (Scenic.Gen.monotoneDeclared)}"
+    s!"simp={",".intercalate es} vec={",".intercalate vs} pythonDispatch={if T.pythonDispatch then 1 else 0} vecSeq={if T.vecHandlerAcceptsSeq then 1 else 0} monotone={",".intercalate (Scenic.Gen.monotoneDeclared)}"
   | _ => "bad-op"
 
 end Driver.C05
